@@ -139,7 +139,9 @@ type lpLine struct {
 	Name   string
 	Tags   []kv
 	Fields []lpField
-	TS     int64
+	TS     int64  // what the client means, in milliseconds
+	Unit   string // the unit the client writes it in ("" = ms)
+	tsKey  string // the draws behind TS (clock independent; identifies the case)
 }
 
 // wire writes the line with the documented escapes.
@@ -162,8 +164,14 @@ func (l *lpLine) wire() string {
 		b.WriteString(strconv.FormatFloat(f.Value, 'g', -1, 64))
 	}
 	b.WriteByte(' ')
-	b.WriteString(strconv.FormatInt(l.TS, 10))
+	b.WriteString(strconv.FormatInt(tsInUnit(l.TS, l.Unit), 10))
 	return b.String()
+}
+
+// body is the line without its timestamp (clock independent).
+func (l *lpLine) body() string {
+	w := l.wire()
+	return w[:strings.LastIndexByte(w, ' ')]
 }
 
 // meaning is the abstract metric the line is documented to mean.
@@ -193,7 +201,18 @@ func genEscLine(t *rapid.T, group string, rc *reqCtx, now int64, classes map[str
 			sensitive = true
 		}
 	}
-	l := &lpLine{TS: now + rapid.Int64Range(-msMinute, msMinute).Draw(t, "tsOffset")}
+	// the latest timestamps the request's unit can express: now +- 1 minute cut to the unit, and
+	// for the coarse units (minute, hour) up to two units back
+	l := &lpLine{Unit: rc.Unit}
+	off, back := rapid.Int64Range(-msMinute, msMinute).Draw(t, "tsOffset"), int64(rapid.IntRange(0, 2).Draw(t, "tsUnitsBack"))
+	l.TS, l.tsKey = now+off, fmt.Sprint(off)
+	if u := unitMs[rc.Unit]; u > 1 {
+		if u < msMinute {
+			back = 0
+		}
+		l.TS = ((now+off)/u - back) * u
+		l.tsKey = fmt.Sprintf("%s:%d:-%d", rc.Unit, off, back)
+	}
 	l.Name = tok(kName, "name")
 	if l.Name[0] == '#' {
 		l.Name = "h" + l.Name // a line starting with '#' is a comment
@@ -256,6 +275,26 @@ func genEscLine(t *rapid.T, group string, rc *reqCtx, now int64, classes map[str
 	return l, sensitive
 }
 
+// genEscPrecision draws how the request tells the unit of its timestamps: the precision parameter
+// of the write API (ns us ms s m h, case-insensitive), or no parameter at all - then the parser is
+// documented to guess the unit from the magnitude ("guesses the real timestamp precision": ms,
+// ns, us, minutes, hours; seconds are not among the guessed units, so a client that counts in
+// seconds has to say so). Either way the stored timestamp must be the one the client sent.
+func genEscPrecision(t *rapid.T, rc *reqCtx) (class string) {
+	if rapid.IntRange(0, 2).Draw(t, "precisionGiven") == 0 {
+		rc.PrecAbsent, rc.Prec = true, ""
+		rc.Unit = rapid.SampledFrom([]string{"ms", "ns", "us", "m", "h"}).Draw(t, "clientUnit")
+		return "precision=absent,client-writes-" + rc.Unit
+	}
+	rc.PrecAbsent = false
+	rc.Unit = rapid.SampledFrom([]string{"ns", "us", "ms", "s", "m", "h"}).Draw(t, "precisionUnit")
+	rc.Prec = genLetterCase(t, rc.Unit, "precisionCase")
+	if rc.Prec != rc.Unit {
+		return "precision=" + rc.Unit + ",not-lower-case"
+	}
+	return "precision=" + rc.Unit
+}
+
 func TestInfluxEscapes(t *testing.T) {
 	const group = "TestInfluxEscapes"
 	rapid.Check(t, func(t *rapid.T) {
@@ -267,6 +306,7 @@ func TestInfluxEscapes(t *testing.T) {
 			rc, custom = &reqCtx{NS: rc.NS, Enriched: nil, Limits: defaultCtx().Limits}, false
 		}
 		classes := map[string]bool{}
+		classes[genEscPrecision(t, rc)] = true
 		target, sensitive := genEscLine(t, group, rc, now, classes)
 		if len(target.Tags)+len(rc.Enriched) > 12 {
 			rc.Enriched = nil // (keeps clear of the unstable de-duplication beyond 12 tags, a recorded finding)
@@ -358,7 +398,7 @@ func TestInfluxEscapes(t *testing.T) {
 		// non-trivial: accepted, a run of >= 2 backslashes on the wire directly before a separator
 		// character or the end of a token (where the parity decides), and >= 2 tags (an order exists)
 		nt := want != nil && sensitive && len(canonTags(target.Tags)) >= 2
-		ev.Case(group, fmt.Sprintf("%s|%d|%q|%v|%v", strings.TrimSuffix(target.wire(), strconv.FormatInt(target.TS, 10)), target.TS-now, rc.NS, rc.Enriched, *rc.Limits), nt, cl,
-			map[string]any{"line": target.wire(), "accepted": want != nil, "row": rows[0]})
+		ev.Case(group, fmt.Sprintf("%s|%s|%q|%v|%q|%v|%v|%v", target.body(), target.tsKey, rc.NS, rc.Enriched, rc.Prec, rc.PrecAbsent, rc.Unit, *rc.Limits), nt, cl,
+			map[string]any{"line": target.wire(), "precision": rc.Prec, "precision_absent": rc.PrecAbsent, "accepted": want != nil, "row": rows[0]})
 	})
 }
